@@ -10,6 +10,13 @@ every top-level expression's accept/reject by the 64-bit gate must equal the mod
 the whole tree from the generator's own description (`TREE`) and must reproduce the
 root annotation, `constant_value`, the gate verdict — or predict the crash.
 
+Every integer annotation is also checked for the canonical remainder of the inductive
+invariant `InvOk` (0 <= modular_value < modulus).  In every structure the synthesised
+`$size_in_*` / `$max_size_in_*` / `$min_size_in_*` are compared with the shape the model's
+`sizeExpr` assumes (`C05_size_bounds`), and an always-present field at a constant location
+must end within the annotated `$max_size_in_*` (model-free).  References to virtual fields
+are sent to the model as `(vref …)` nodes.
+
 Independent spec oracle (no model): every generated expression is evaluated over ℤ/Bool
 for enumerated (≤ 2^16 environments) or sampled leaf values; every aligned node's value
 must lie in γ(Python annotation); tightness of linear single-occurrence expressions is
@@ -146,6 +153,94 @@ class Batch:
         self.lines.append(line)
 
 
+def _strip_ir(x):
+    """dict form of an IR node without source locations / synthetic marks"""
+    from compiler.util import ir_data_utils
+    d = ir_data_utils.IrDataSerializer(x).to_dict(exclude_none=True)
+
+    def rm(o):
+        if isinstance(o, dict):
+            return {k: rm(v) for k, v in o.items() if k not in ("source_location", "is_synthetic")}
+        if isinstance(o, list):
+            return [rm(v) for v in o]
+        return o
+    return rm(d)
+
+
+def check_size_shape(chk, text, types, stats, origin):
+    """Tie for `C05_size_bounds`: in every structure the synthesised `$size_in_*` is
+    `$max(0, cond_i ? start_i + size_i : 0, …)` over the physical fields in order (the model's
+    `sizeExpr`), and `$max_size_in_*` / `$min_size_in_*` are `$upper_bound` / `$lower_bound`
+    of a reference to it."""
+    from compiler.util import ir_data, ir_util
+    FM = ir_data.FunctionMapping
+    for t in types:
+        check_size_shape(chk, text, t.subtype, stats, origin)
+        if not t.has_field("structure"):
+            continue
+        fields = {f.name.name.text: f for f in t.structure.field}
+        unit = "bits" if "$size_in_bits" in fields else "bytes"
+        sz = fields.get("$size_in_" + unit)
+        if sz is None:
+            continue
+        why = None
+        s = sz.read_transform
+        phys = [f for f in t.structure.field if not ir_util.field_is_virtual(f)]
+        try:
+            if s.function.function != FM.MAXIMUM or len(s.function.args) != len(phys) + 1 \
+                    or s.function.args[0].constant.value != "0":
+                why = "$size_in_%s is not $max(0, one clause per physical field)" % unit
+            else:
+                for f, c in zip(phys, s.function.args[1:]):
+                    ok = (c.function.function == FM.CHOICE and len(c.function.args) == 3
+                          and _strip_ir(c.function.args[0]) == _strip_ir(f.existence_condition)
+                          and c.function.args[1].function.function == FM.ADDITION
+                          and _strip_ir(c.function.args[1].function.args[0]) == _strip_ir(f.location.start)
+                          and _strip_ir(c.function.args[1].function.args[1]) == _strip_ir(f.location.size)
+                          and c.function.args[2].constant.value == "0")
+                    if not ok:
+                        why = "clause of field %s is not `existence_condition ? start + size : 0`" % f.name.name.text
+                        break
+            for nm, fn in (("$max_size_in_", FM.UPPER_BOUND), ("$min_size_in_", FM.LOWER_BOUND)):
+                b = fields.get(nm + unit)
+                if why is None and b is not None:
+                    r = b.read_transform
+                    if r.function.function != fn or len(r.function.args) != 1 or \
+                            list(r.function.args[0].field_reference.path[-1].canonical_name.object_path)[-1] \
+                            != "$size_in_" + unit:
+                        why = "%s%s is not the bound function of $size_in_%s" % (nm, unit, unit)
+        except AttributeError as e:
+            why = "unexpected IR shape: %r" % e
+        # spec oracle without the model (property statement: "$max_size_in_* … are true bounds"):
+        # a field that is always present at a constant location ends within $max_size_in_*
+        mxf = fields.get("$max_size_in_" + unit)
+        if mxf is not None and mxf.read_transform.type.integer.modulus == "infinity" and \
+                mxf.read_transform.type.integer.modular_value not in (None, "infinity", "-infinity"):
+            mx = int(mxf.read_transform.type.integer.modular_value)
+            for f in phys:
+                try:
+                    c = ir_util.constant_value(f.existence_condition)
+                    st = ir_util.constant_value(f.location.start)
+                    z = ir_util.constant_value(f.location.size)
+                except Exception:  # noqa: BLE001
+                    continue
+                if c is True and st is not None and z is not None:
+                    stats["size_static_fields"] = stats.get("size_static_fields", 0) + 1
+                    if st + z > mx:
+                        chk.violation("input", {"input": text, "origin": origin, "structure": t.name.name.text,
+                                                "observed": "$max_size_in_%s = %d" % (unit, mx),
+                                                "expected": "at least %d: field %s is always present at [%d, %d)"
+                                                            % (st + z, f.name.name.text, st, st + z)})
+                        break
+        stats["size_shape"] = stats.get("size_shape", 0) + 1
+        stats["size_clauses"] = stats.get("size_clauses", 0) + len(phys)
+        if why:
+            chk.violation("correspondence", {"input": text, "origin": origin, "structure": t.name.name.text,
+                                             "observed": why, "expected": "model sizeExpr (Spec/BoundsSize.lean)",
+                                             "theorem_or_correspondence": "C05_size_bounds"},
+                          found_input=False)
+
+
 def check_module_nodes(chk, text, ir, errs, batch, stats, origin, modules=None):
     """Node-wise queries for every expression of an annotated IR."""
     from compiler.util import ir_util
@@ -160,6 +255,18 @@ def check_module_nodes(chk, text, ir, errs, batch, stats, origin, modules=None):
         stats["nodes"] = stats.get("nodes", 0) + 1
         if t.startswith("i:"):
             batch.ask("INV " + t, "true", dict(ctx, annotation=t), "inv")
+            # the other two conjuncts of the inductive invariant `InvOk` (Spec/BoundsInv.lean),
+            # evaluated directly: canonical remainder; "constant infinity" only counted (F8)
+            _, _mn, _mx, _md, _mv = t.split(":")
+            if _md != "inf":
+                canon = _mv not in ("inf", "-inf") and 0 <= int(_mv) < int(_md)
+                if not canon:
+                    chk.violation("correspondence", dict(ctx, annotation=t, observed="modular_value %s" % _mv,
+                                  expected="0 <= modular_value < modulus (CanonMv, proved by "
+                                           "C05_inv_preserved for every annotation the model computes)",
+                                  theorem_or_correspondence="C05_inv_preserved"), found_input=False)
+            elif _mv in ("inf", "-inf"):
+                stats["constant_infinity"] = stats.get("constant_infinity", 0) + 1
         if w == "function":
             name = FN.get(expr.function.function.name)
             stats["op:%s" % name] = stats.get("op:%s" % name, 0) + 1
@@ -234,6 +341,7 @@ def check_module_nodes(chk, text, ir, errs, batch, stats, origin, modules=None):
         modules = [m for m in ir.module if m.source_file_name == "m.emb"]
     for m in modules:
         walk(m)
+        check_size_shape(chk, text, m.type, stats, origin)
     # every gate error belongs to the innermost top-level expression that contains it
     got = {}
     for line, lst in gk.items():
@@ -442,7 +550,9 @@ def sexp(a):
     if k == "eleaf":
         return "(el %d)" % a[1][1]
     if k == "ref":
-        return sexp(a[1][1])
+        # a field_reference to an earlier virtual field: the model's `vref` constructor
+        # (type copied from the definition, constant_value unknown, a leaf for the gate)
+        return "(vref %s)" % sexp(a[1][1])
     if k == "bin":
         return "(%s %s %s)" % (SEXP_OP[a[1]], sexp(a[2]), sexp(a[3]))
     if k == "choice":
@@ -843,11 +953,13 @@ def run_text(chk, r, batch, stats, text, lets, with_model, origin, oracle=True):
             continue
         t = atype_of(root.type)
         chk.nontrivial(emb_text(ast))
-        if with_model and not has_ref(ast):
-            # whole-tree query only for reference-free expressions: a reference to a virtual
-            # field is a leaf for constant_value and for the gate (its own definition is gated
-            # as a separate top-level expression); those nodes are covered node-wise above
+        if with_model:
+            # whole-tree query; a reference to a virtual field is the model's `vref` node: a
+            # leaf for constant_value and for the gate (its own definition is gated as a
+            # separate top-level expression)
             stats["tree_queries"] = stats.get("tree_queries", 0) + 1
+            if has_ref(ast):
+                stats["tree_queries_with_vref"] = stats.get("tree_queries_with_vref", 0) + 1
             kinds = sorted(k for (_, k) in gk.get(line, []))
             want_gate = "ok" if not kinds else "err " + ",".join(kinds)
             batch.ask("TREE " + sexp(ast), "abs=%s cv=%s gate=%s" % (t, cv_of(root), want_gate),
